@@ -2,7 +2,7 @@
 // Supporting runs for what the simulation cannot execute: the socket adaptor itself (tcp_adaptor.hpp) and the
 // kernel.  A blocking client with a small receive buffer sends requests and reads the responses slowly.
 //
-// case: real <body-bytes> <version 0|1> <close 0|1> <requests> <delay-ms>
+// case: real <body-bytes> <version 0|1> <close 0|1> <requests> <delay-ms> [<set_timeout ms>]
 //   version 0: HTTP/1.0, 1: HTTP/1.1; close 1: Connection: close on the last request
 // output: got=<complete responses> bytes=<body bytes received>/<expected> eof=<0|1 the server closed> err=<errno|0>
 //         sent=<message-sent events> disc=<disconnected events>
@@ -47,12 +47,10 @@ static std::string handle_reset(std::vector<std::string> const& a)
   server.socket_connected_event([&conns](http_connection::weak_pointer) { ++conns; });
   server.socket_disconnected_event([&disc](http_connection::weak_pointer) { ++disc; });
   unsigned short port = 0;
-  for (unsigned short p = static_cast<unsigned short>(22000 + (static_cast<unsigned>(getpid()) * 7u) % 30000); ; ++p)
-  {
-    boost::system::error_code ec(server.accept_connections(p));
-    if (!ec) { port = p; break; }
-    if (p > 60000) return "HARNESS-ERROR no-port";
-  }
+  port = hu::free_port(static_cast<unsigned>(getpid()) * 7u);
+  if (!port) return "HARNESS-ERROR no-port";
+  try { boost::system::error_code ec(server.accept_connections(port)); if (ec) return "HARNESS-ERROR listen: " + ec.message(); }
+  catch (std::exception const& e) { return std::string("HARNESS-ERROR listen: ") + e.what(); }
   std::string threw = "-";
   std::thread loop([&io, &threw]()
   {
@@ -140,12 +138,10 @@ static std::string handle_timeo(std::vector<std::string> const& a)
     }
   });
   unsigned short port = 0;
-  for (unsigned short p = static_cast<unsigned short>(23000 + (static_cast<unsigned>(getpid()) * 11u) % 30000); ; ++p)
-  {
-    boost::system::error_code ec(server.accept_connections(p));
-    if (!ec) { port = p; break; }
-    if (p > 60000) return "HARNESS-ERROR no-port";
-  }
+  port = hu::free_port(static_cast<unsigned>(getpid()) * 11u);
+  if (!port) return "HARNESS-ERROR no-port";
+  try { boost::system::error_code ec(server.accept_connections(port)); if (ec) return "HARNESS-ERROR listen: " + ec.message(); }
+  catch (std::exception const& e) { return std::string("HARNESS-ERROR listen: ") + e.what(); }
   std::thread loop([&io]() { io.run(); });
   using boost::asio::ip::tcp;
   for (auto const& e : hu::split(a[0], ','))
@@ -186,9 +182,11 @@ static std::string handle(std::string const& op, std::vector<std::string> const&
   size_t body_bytes = static_cast<size_t>(std::stoull(a[0]));
   bool v11 = a[1] == "1", close_last = a[2] == "1";
   int nreq = std::stoi(a[3]), delay_ms = std::stoi(a[4]);
+  int timeout_ms = a.size() > 5 ? std::stoi(a[5]) : 0;      // server.set_timeout() before listening (0: not set)
   std::atomic<long> sent{0}, disc{0};
   boost::asio::io_context io;
   http_server_type server(io);
+  if (timeout_ms > 0) server.set_timeout(timeout_ms);
   server.request_received_event([body_bytes](http_connection::weak_pointer w, http_request const&, std::string const&)
   {
     if (auto c = w.lock())
@@ -200,12 +198,10 @@ static std::string handle(std::string const& op, std::vector<std::string> const&
   server.message_sent_event([&sent](http_connection::weak_pointer) { ++sent; });
   server.socket_disconnected_event([&disc](http_connection::weak_pointer) { ++disc; });
   unsigned short port = 0;
-  for (unsigned short p = static_cast<unsigned short>(21000 + (static_cast<unsigned>(getpid()) * 13u + body_bytes % 977u) % 30000); ; ++p)
-  {
-    boost::system::error_code ec(server.accept_connections(p));
-    if (!ec) { port = p; break; }
-    if (p > 60000) return "HARNESS-ERROR no-port";
-  }
+  port = hu::free_port(static_cast<unsigned>(getpid()) * 13u + body_bytes % 977u);
+  if (!port) return "HARNESS-ERROR no-port";
+  try { boost::system::error_code ec(server.accept_connections(port)); if (ec) return "HARNESS-ERROR listen: " + ec.message(); }
+  catch (std::exception const& e) { return std::string("HARNESS-ERROR listen: ") + e.what(); }
   std::thread loop([&io]() { io.run(); });
 
   long got = 0; unsigned long long bytes = 0; int eof = 0, err = 0;
